@@ -9,13 +9,16 @@ post_unmerge, final).  Around the `unmerge` hook the harness records the os-leve
       old, new)                                                            [evaluated in Coq]
   (B) Spec_C20.spec_ok on the implementation's after-snapshot              [evaluated in Coq]
       + the statement itself checked directly on the real snapshots         [`oracle`, Python]
-Tables: BaseSystemUnmergeProtection._preserve_sequence, the trigger priorities and the errno
+Stream `order`: the hook schedule of the three real engines vs Model_C20.run_names.
+Tables: BaseSystemUnmergeProtection._preserve_sequence, the default-trigger table (priorities,
+hooks, engine types, engine hooks) and the errno
 tuple of unmerge_contents are regenerated from source (coq/gen/Tables_C20.v, fail closed).
 """
 
 from __future__ import annotations
 
 import ast
+import concurrent.futures as cf
 import errno
 import os
 import shutil
@@ -33,6 +36,8 @@ ANCHORS = ["fs/ops.py::unmerge_contents", "merge/engine.py::MergeEngine.get_remo
            "merge/engine.py::MergeEngine.uninstall", "merge/engine.py::MergeEngine.replace",
            "merge/engine.py::MergeEngine.execute_hook", "merge/engine.py::MergeEngine._get_livefs_intersect_cset",
            "merge/triggers.py::BaseSystemUnmergeProtection", "merge/triggers.py::unmerge",
+           "merge/triggers.py::default_plugins_triggers", "merge/triggers.py::base.register",
+           "merge/engine.py::MergeEngine.add_trigger",
            "fs/livefs.py::intersect", "fs/contents.py::contentsSet.difference",
            "fs/contents.py::contentsSet.difference_update"]
 
@@ -78,8 +83,6 @@ def gen_tables():
         et = _class_attr(t, cls, "_engine_types")
         if not (isinstance(et, ast.Name) and et.id == "UNINSTALLING_MODES"):
             raise TableError(f"{cls}._engine_types is no longer UNINSTALLING_MODES")
-    p_prot = _int_lit(_class_attr(t, "BaseSystemUnmergeProtection", "priority", "base"), "priority")
-    p_unm = _int_lit(_class_attr(t, "unmerge", "priority", "base"), "priority")
     # the errno tuple of the rmdir loop in unmerge_contents
     o = tables.parse("fs/ops.py")
     fn = tables.find_func(o, "unmerge_contents")
@@ -101,16 +104,120 @@ def gen_tables():
     L.append("(* BaseSystemUnmergeProtection._preserve_sequence, verbatim *)")
     L.append("Definition preserve_sequence : list str := " + clist([cstr(x.encode()) for x in seq], "str") + ".")
     L.append(f"(* {', '.join(seq)} *)")
-    L.append("(* trigger priorities (class attribute, inherited from `base` when not overridden) *)")
-    L.append(f"Definition prot_priority : Z := {cZ(p_prot)}.")
-    L.append(f"Definition unmerge_priority : Z := {cZ(p_unm)}.")
     L.append("(* errno values the rmdir loop of unmerge_contents ignores: " + ", ".join(names) + " *)")
     L.append("Definition rmdir_ignored : list N := " + clist([cN(getattr(errno, n)) for n in names], "N") + ".")
     L.append(f"Definition E_NOENT : N := {cN(errno.ENOENT)}.")
     L.append(f"Definition E_NOTDIR : N := {cN(errno.ENOTDIR)}.")
     L.append(f"Definition E_NOTEMPTY : N := {cN(errno.ENOTEMPTY)}.")
     L.append(f"Definition E_BUSY : N := {cN(errno.EBUSY)}.")
+    L += _hook_tables(t)
     return {"Tables_C20.v": "\n".join(L) + "\n"}
+
+
+def _same(node, src):
+    return ast.dump(node) == ast.dump(ast.parse(src, mode="eval").body)
+
+
+def _inherited_attr(tree, cls, attr, depth=0):
+    """class-level `attr = <expr>` of cls, following single in-module inheritance"""
+    if depth > 6:
+        raise TableError(f"{cls}: inheritance too deep")
+    node = [n for n in ast.iter_child_nodes(tree) if isinstance(n, ast.ClassDef) and n.name == cls]
+    if len(node) != 1:
+        raise TableError(f"class {cls} not found exactly once in merge/triggers.py")
+    node = node[0]
+    hits = [n.value for n in node.body if isinstance(n, ast.Assign)
+            and any(isinstance(x, ast.Name) and x.id == attr for x in n.targets)]
+    hits += [n.value for n in node.body if isinstance(n, ast.AnnAssign) and isinstance(n.target, ast.Name)
+             and n.target.id == attr and n.value is not None]
+    if len(hits) > 1:
+        raise TableError(f"{cls}.{attr}: assigned more than once")
+    if hits:
+        return hits[0]
+    if len(node.bases) != 1 or not isinstance(node.bases[0], ast.Name):
+        raise TableError(f"{cls}.{attr}: not defined / unsupported bases")
+    return _inherited_attr(tree, node.bases[0].id, attr, depth + 1)
+
+
+def _hook_tables(t):
+    """the data that decides which default trigger runs when: default_plugins_triggers() (members,
+    sort), per trigger (priority, _hooks, _engine_types), the hooks of each engine mode, and the
+    shapes of the two sorts (registration order, execution order)"""
+    from .common import copt
+    c = tables.parse("merge/const.py")
+    consts = {}
+    for n in ("REPLACE_MODE", "INSTALL_MODE", "UNINSTALL_MODE"):
+        v = tables.literal(tables.find_assign(c, n))
+        if type(v) is not int or v < 0:
+            raise TableError(f"merge/const.py: {n} is not a non-negative int literal")
+        consts[n] = v
+    if len(set(consts.values())) != 3:
+        raise TableError("merge/const.py: modes are not distinct")
+    modesets = {}
+    for name in ("INSTALLING_MODES", "UNINSTALLING_MODES"):
+        v = tables.find_assign(t, name)
+        if not (isinstance(v, ast.Tuple) and all(
+                isinstance(e, ast.Attribute) and isinstance(e.value, ast.Name) and e.value.id == "const"
+                and e.attr in consts for e in v.elts)):
+            raise TableError(f"{name}: expected a tuple of const.<MODE>")
+        modesets[name] = [consts[e.attr] for e in v.elts]
+    fn = tables.find_func(t, "default_plugins_triggers")
+    body = [s for s in fn.body if not (isinstance(s, ast.Expr) and isinstance(s.value, ast.Constant))]
+    if not (len(body) == 2 and isinstance(body[0], ast.Assign) and isinstance(body[0].value, ast.Tuple)
+            and isinstance(body[1], ast.Return)
+            and _same(body[1].value, "tuple(sorted(triggers, reverse=True, key=lambda x: (x.priority, x.__name__)))")
+            and all(isinstance(e, ast.Name) for e in body[0].value.elts)):
+        raise TableError("default_plugins_triggers: unexpected shape")
+    rows = []
+    for e in body[0].value.elts:
+        pr = _int_lit(_inherited_attr(t, e.id, "priority"), f"{e.id}.priority")
+        hooks = tables.literal(_inherited_attr(t, e.id, "_hooks"))
+        if not (isinstance(hooks, tuple) and all(isinstance(h, str) for h in hooks)):
+            raise TableError(f"{e.id}._hooks is not a tuple of string literals")
+        et = _inherited_attr(t, e.id, "_engine_types")
+        if isinstance(et, ast.Constant) and et.value is None:
+            ets = None
+        elif isinstance(et, ast.Name) and et.id in modesets:
+            ets = modesets[et.id]
+        else:
+            raise TableError(f"{e.id}._engine_types: expected None or (UN)INSTALLING_MODES")
+        rows.append((e.id, pr, hooks, ets))
+    eng = tables.parse("merge/engine.py")
+
+    def hook_names(name):
+        v = tables.find_assign(eng, name, cls="MergeEngine")
+        if not (isinstance(v, ast.DictComp) and isinstance(v.value, ast.List) and not v.value.elts
+                and len(v.generators) == 1 and isinstance(v.key, ast.Name)):
+            raise TableError(f"MergeEngine.{name}: expected {{x: [] for x in (<names>)}}")
+        names = tables.literal(v.generators[0].iter)
+        if not (isinstance(names, tuple) and all(isinstance(s, str) for s in names)):
+            raise TableError(f"MergeEngine.{name}: hook names are not string literals")
+        return list(names)
+    ih, uh = hook_names("install_hooks"), hook_names("uninstall_hooks")
+    rh = tables.find_assign(eng, "replace_hooks", cls="MergeEngine")
+    if not (isinstance(rh, ast.DictComp) and _same(
+            rh.generators[0].iter, "set(chain(install_hooks.keys(), uninstall_hooks.keys()))")):
+        raise TableError("MergeEngine.replace_hooks is no longer the union of install and uninstall hooks")
+    ex = tables.find_func(eng, "MergeEngine.execute_hook")
+    fors = [n for n in ast.walk(ex) if isinstance(n, ast.For)]
+    if not (len(fors) == 1 and _same(fors[0].iter, 'sorted(self.hooks[hook], key=operator.attrgetter("priority"))')):
+        raise TableError("MergeEngine.execute_hook no longer runs sorted(self.hooks[hook], key=priority)")
+    L = ["", "(* merge/const.py *)"]
+    for k, v in consts.items():
+        L.append(f"Definition {k} : N := {cN(v)}.")
+    L.append("(* default_plugins_triggers(): (class name, priority, _hooks, _engine_types) in source order; the")
+    L.append("   function returns them sorted(reverse=True, key=(priority, name)); execute_hook runs")
+    L.append("   sorted(hooks[hook], key=priority) - both shapes are checked when this file is generated *)")
+    L.append("Definition default_triggers : list (str * Z * list str * option (list N)) :=\n  %s." % clist(
+        ["(%s, %s, %s, %s)" % (cstr(n), cZ(p), clist([cstr(h) for h in hs], "str"),
+                               copt(et, lambda l: clist([cN(x) for x in l], "N"), "list N"))
+         for n, p, hs, et in rows], "str * Z * list str * option (list N)"))
+    L.append("(* MergeEngine.install_hooks / uninstall_hooks (replace_hooks is their union) *)")
+    L.append("Definition install_hooks : list str := %s." % clist([cstr(h) for h in ih], "str"))
+    L.append("Definition uninstall_hooks : list str := %s." % clist([cstr(h) for h in uh], "str"))
+    L.append(f"Definition name_unmerge : str := {cstr('unmerge')}.                       (* trigger class and hook *)")
+    L.append(f"Definition name_protection : str := {cstr('BaseSystemUnmergeProtection')}.")
+    return L
 
 
 # the base-system directories of the statement, pinned (same list as Spec_C20.base_system_dirs)
@@ -298,7 +405,7 @@ def gen_case(rng, n):
     off = rng.choice(["o", "o", "o", "o/p", "s", ""])
     flip = [p for p in old if rng.random() < 0.06]      # recorded with the wrong type (the live type decides)
     return {"n": n, "mode": mode, "tree": t, "old": old, "new": new, "off": off, "flip": flip,
-            "slash": rng.random() < 0.3, "ext": rng.random() < 0.8, "post": rng.random() < 0.05}
+            "slash": rng.random() < 0.3, "ext": rng.random() < 0.8, "post": False}
 
 
 # --------------------------------------------------------------------------- driving the implementation
@@ -447,7 +554,7 @@ def run_case(case, base):
         else:
             new_c = make_contents(case, "new", O)
             e = MergeEngine.replace(tmp, _Pkg(old_c, "old"), _Pkg(new_c, "new"), offset=offset, observer=obs)
-            # post_merge / post_unmerge only spawn ldconfig (0.1-0.2 s each): run for a sample of the cases
+            # post_merge / post_unmerge only spawn ldconfig (0.1-0.4 s each): run where the case asks for it (corpus 02)
             hooks = ("sanity_check", "pre_merge", "merge") + (("post_merge",) if case.get("post") else ()) \
                 + ("pre_unmerge",)
         for h in hooks:
@@ -644,7 +751,36 @@ def evaluate(chk, rows, name="unmerge"):
     cases = [(bstr(r["input"]) + "%bs", Raw("(VS (s2l " + bstr(r["result"]) + "%bs))")) for _, r in rows]
     return chk.coq_eval(name, IMPORTS, "bstr", cases,
                         ["mismatches run_case cases",
-                         "where_ (fun i r => negb (spec_ok (dec_case i) r)) cases"], shard=64)
+                         "where_ (fun i r => negb (spec_ok (dec_case i) r)) cases"], shard=36)
+
+
+def hook_order_cases():
+    """stream `order`: for every engine mode and every hook of that engine, the class names of the
+    default triggers in the order execute_hook runs them (sorted by priority, stable)"""
+    import operator
+
+    from pkgcore.fs.contents import contentsSet
+    from pkgcore.merge import const
+    from pkgcore.merge.engine import MergeEngine
+    from pkgcore.operations import observer as om
+
+    tmp = scratch_base()
+    out = []
+    try:
+        def pkg():
+            return _Pkg(contentsSet(), "p")
+        obs = om.repo_observer(om.null_output())
+        engines = [(const.INSTALL_MODE, MergeEngine.install(tmp, pkg(), offset=tmp, observer=obs)),
+                   (const.UNINSTALL_MODE, MergeEngine.uninstall(tmp, pkg(), offset=tmp, observer=obs)),
+                   (const.REPLACE_MODE, MergeEngine.replace(tmp, pkg(), pkg(), offset=tmp, observer=obs))]
+        for mode, e in engines:
+            assert e.mode == mode
+            for hook in sorted(e.hooks):
+                names = [type(t).__name__ for t in sorted(e.hooks[hook], key=operator.attrgetter("priority"))]
+                out.append((mode, hook, names))
+    finally:
+        shutil.rmtree(tmp, ignore_errors=True)
+    return out
 
 
 def main(chk: Check):
@@ -669,8 +805,8 @@ def main(chk: Check):
     rows, skipped, hist = [], 0, {}
     try:
         todo = load_corpus()
-        # quick 120, thorough 480; a changed fingerprint doubles the quick budget
-        n = 480 if chk.thorough else (240 if chk.fingerprint_changed else 120)
+        # quick 100, thorough 480; a changed fingerprint doubles the quick budget
+        n = 480 if chk.thorough else (200 if chk.fingerprint_changed else 100)
         k = 0
         while len(todo) < n + len(load_corpus()):
             todo.append(gen_case(chk.rng, 0))
@@ -694,6 +830,22 @@ def main(chk: Check):
     for case, r in rows[:: max(1, len(rows) // 3)][:3]:
         chk.sample({"mode": case["mode"], "input": r["input"], "impl": r["result"]})
 
+    # ---- stream `order`: the hook schedule of the three real engines vs Model_C20.run_names
+    order = hook_order_cases()
+    chk.count("order", len(order))
+    for mode, hook, names in order:
+        if "unmerge" in names:
+            chk.nontrivial(("order", mode, hook))
+            if "BaseSystemUnmergeProtection" not in names[:names.index("unmerge")]:
+                chk.violation("property", {"what": "the unmerge trigger runs without BaseSystemUnmergeProtection before it",
+                                           "input": {"mode": mode, "hook": hook, "runs": names}})
+    order_future = None
+    pool = cf.ThreadPoolExecutor(max_workers=1)
+    if ok:      # evaluated in Coq while the main stream is prepared
+        order_future = pool.submit(
+            chk.coq_eval, "order", IMPORTS, "N * str",
+            [(f"({cN(m)}, {cstr(h.encode())})", list(n)) for m, h, n in order], ["mismatches run_hook_order cases"])
+
     # ---- (B) in Python
     prop_bad = []
     for case, r in rows:
@@ -710,6 +862,14 @@ def main(chk: Check):
         res = evaluate(chk, rows)
         if res is not None:
             a_bad, b_bad = res
+    if order_future is not None:
+        ro = order_future.result()
+        for k in (ro[0][:2] if ro is not None else []):
+            m, h, n = order[k]
+            chk.violation("correspondence", {"what": "the real engine's hook schedule differs from Model_C20.run_names "
+                                                     "(theorems protection_before_unmerge / unmerge_scheduled no longer speak about this code)",
+                                             "input": {"mode": m, "hook": h}, "implementation": n}, no_input=True)
+    pool.shutdown()
     known_b = set()
     for i in b_bad:
         case, r = rows[i]
